@@ -349,11 +349,15 @@ func (r *condition) isEqual(o *condition) error {
 		return errorf("Condition keyword mismatch")
 	}
 
-	if r.op.String() != o.op.String() {
+	if r.op == nil || o.op == nil {
+		if r.op != o.op {
+			return errorf("Condition operator mismatch")
+		}
+	} else if r.op.String() != o.op.String() {
 		return errorf("Condition operator mismatch")
 	}
 
-	if r.op.Context() != o.op.Context() {
+	if r.op != nil && o.op != nil && r.op.Context() != o.op.Context() {
 		return errorf("Condition operator (context) mismatch")
 	}
 
